@@ -98,6 +98,27 @@ fn timestamps(x: &[u8]) -> Vec<(String, u32)> {
             out.push((format!("FILEMTIMES[{}]", i), *t));
         }
     }
+    // modification times inside the cpio entry headers of the payload
+    let comp = match get(&hdr, 1125) {
+        Some(Val::Str(s)) => Some(String::from_utf8_lossy(&s).to_string()),
+        _ => None,
+    };
+    if let Some((_, _, _, l)) = scan(x) {
+        if let Ok(arch) = crate::validator::decompress(comp.as_deref(), &x[l.payload_off..]) {
+            let sizes: Vec<u64> = match (get(&hdr, 5008), get(&hdr, 1028)) {
+                (Some(Val::Int64(v)), _) => v,
+                (_, Some(Val::Int32(v))) => v.iter().map(|x| *x as u64).collect(),
+                _ => vec![],
+            };
+            if let Ok((ents, _)) = vlib::refcpio::read_archive(&arch, &sizes) {
+                for (i, e) in ents.iter().enumerate() {
+                    if let vlib::refcpio::Ent::Newc(c) = e {
+                        out.push((format!("cpio entry mtime[{}]", i), c.mtime));
+                    }
+                }
+            }
+        }
+    }
     // OpenPGP signature creation time, from the legacy binary tags (same packet as in the OpenPGP tag)
     for tag in [268u32, 267] {
         if let Some(Val::Bin(b)) = get(&sig, tag) {
@@ -145,7 +166,7 @@ pub fn run(ctx: &Ctx) -> i32 {
     }
     let env = Arc::new(Env::new(&ctx.repo, "c11"));
     let cfg = configs();
-    let seeds: u64 = if ctx.thorough() { 2000 } else { 64 };
+    let seeds: u64 = if ctx.thorough() { 2000 } else { 256 };
     let clocks: [i64; 4] = [SD as i64, SD as i64 + 1, SD as i64 + 1_000_000, u32::MAX as i64];
     // warm the source-file cache outside any scenario
     for (_, s) in &cfg {
@@ -213,7 +234,7 @@ pub fn run(ctx: &Ctx) -> i32 {
         "seed-clock",
         "C",
         &format!(
-            "{} configurations (0–5 files, up to 5 distinct non-root users and groups, file mtimes before / at / after the source date, changelog, gzip, unsigned / Ed25519 / RSA-4096) × hash seed ∈ 0..{} (RSA: 0..16) × wall clock ∈ {{sd, sd+1, sd+10^6, 2^32−1}}, each build on a fresh thread whose RandomState seed (getrandom) and SystemTime::now() (clock_gettime) are answered by the harness. Oracle: all outputs of a configuration byte-identical; BUILDTIME, every FILEMTIMES item and the OpenPGP signature creation time ≤ source date. non-trivial = build that completed",
+            "{} configurations (0–5 files, up to 5 distinct non-root users and groups, file mtimes before / at / after the source date, changelog, gzip, unsigned / Ed25519 / RSA-4096) × hash seed ∈ 0..{} (RSA: 0..16) × wall clock ∈ {{sd, sd+1, sd+10^6, 2^32−1}}, each build on a fresh thread whose RandomState seed (getrandom) and SystemTime::now() (clock_gettime) are answered by the harness. Oracle: all outputs of a configuration byte-identical; BUILDTIME, every FILEMTIMES item, every cpio entry mtime in the (decompressed) payload and the OpenPGP signature creation time ≤ source date. non-trivial = build that completed",
             cfg.len(), seeds
         ),
         acc,
